@@ -673,3 +673,28 @@ def _inside_class(root, node):
         if n.kind == 'class' and n is not node and any(it is node for it in (n.items or [])):
             return True
     return False
+
+
+
+# ---------------------------------------------------------------------------------------------------------------
+# generic rules (lead): cross-cutting necessary conditions scoped to the modules this property is anchored in
+# (sa/generic.py: filter predicates depend on their element; regex group names read by the code exist)
+
+def _generic_rules(chk):
+    import re as _re_
+    from ..index import get_index as _gi
+    from ..consteval import Resources as _Res
+    from .. import generic as _g
+    idx_ = _gi()
+    scope = _re_.compile('.')
+    flt = lambda name: bool(scope.search(name.rsplit('.', 1)[-1]))
+    _g.rule_group_names(chk, idx_, _Res(idx_), 'C13.groups', 'recognizers_sequence', None, floor=1)
+    _g.rule_filter_predicates(chk, idx_, 'C13.filters', 'recognizers_sequence', floor=1)
+
+
+_run_before_generic = run
+
+
+def run(chk):       # noqa: F811
+    _run_before_generic(chk)
+    _generic_rules(chk)
